@@ -109,6 +109,18 @@ package sourcerunner
 // directly would overtake the placeholders of records that are still being keyed).
 // (Every event queued on the output stream is a NEW object: watermark placeholders are stamped in
 // place when they are sent, so a shared one would rewrite watermarks already forwarded - C11.)
+// A source runner that survives the failure of another member is deployed again. The event loop
+// of its previous deployment is stopped AND has returned before the new one is started (two loops
+// over the same reader, barrier channel and output stream interleave the records of a split and
+// take positions that do not match the barrier), and the output stream keeps its ONE consumer.
+//@ func SourceRunner.HandleDeploy
+//@   property C15 C16 C04
+//@   nosafety
+//@   order go after stopLoop
+//@   ensures called(stopLoop) && called(Do)
+//@   ensures old(r.loopDone) != nil ==> called("recv:loopDone")
+//@   ensures ncalled("go") == 1
+
 //@ func SourceRunner.processEvents
 //@   property C04 C16 C11
 //@   nosafety
